@@ -366,6 +366,24 @@ func c20(r *core.Run) {
 				r.Fail("wipeout-left-live-version", fmt.Sprintf("paging-%d", k.Paging), "Wipeout returned nil but %d key versions are still ENABLED or DISABLED (e.g. %s); %d keys, %d versions, paging policy %d", len(live), live[0], nk, nv, k.Paging)
 			}
 		}
+		if err != nil && k.FailedRPC != "" && k.FailedRPC != "ListCryptoKeys" {
+			// one call about ONE key failed: the error is reported (it is), and every other key is
+			// wiped all the same. (A failed listing of the keys themselves excuses everything.)
+			failedKey := k.FailedArg
+			if i := strings.IndexAny(failedKey, "/ "); i >= 0 {
+				failedKey = failedKey[:i]
+			}
+			for _, v := range k.LiveVersions(ring) {
+				vk := v
+				if i := strings.IndexByte(vk, '/'); i >= 0 {
+					vk = vk[:i]
+				}
+				if vk != failedKey {
+					r.Fail("wipeout-left-live-version", "other-key-after-one-failure", "Wipeout failed on %s(%s) and left %s ENABLED or DISABLED: a version of another key, which the failure did not concern (%d keys, %d versions)", k.FailedRPC, k.FailedArg, v, nk, nv)
+				}
+			}
+			r.Probe("wipeout-failed-on-one-key")
+		}
 		if live := k.LiveVersions("projects/p/locations/l/keyRings/other"); len(live) != 1 {
 			r.Fail("wipeout-left-live-version", "foreign-ring", "Wipeout touched a key ring it does not manage")
 		}
